@@ -76,8 +76,10 @@ CLAIMED["C07"] = (SCHED_TECH,
 CLAIMED["C08"] = (SCHED_TECH,
     "C08_runs (after completion every job whose dependencies all succeeded was started or skipped for its own context), C08_downstream, C08_errors (the error "
     "list is exactly one entry per received real error, each justified by what its job did, no sentinel, every failed job present), C08_once, C08_return, "
-    "also when the dependent is enqueued after its dependency failed. Tie: trace conformance; multierr.Errors identities as multisets on the real scheduler.",
-    SCHED_NOTE + " The forwarding of the ContinueOnError expression by generated code is checked on generated code (C10).", "DESIGN.md §7 C08")
+    "also when the dependent is enqueued after its dependency failed; for the generated jobs (Layer 2): in every saturated execution (every job whose dependencies all returned nil has run - what ContinueOnError produces) a function "
+    "ran exactly when the flow semantics does not block it and the failures are exactly the failures of the semantics (C08_generated_runs, C08_generated_failures). Tie: trace conformance; multierr.Errors identities as multisets on the real "
+    "scheduler; generated Parallel programs with ContinueOnError under single and multiple failures (returned error = exactly the predicted failure set, every unblocked function called).",
+    SCHED_NOTE, "DESIGN.md §7 C08")
 
 CLAIMED["C14"] = (
     "Coq proof about an executable model of compileFlow's checks: check-by-check equivalences, depth-first cycle search sound and complete (fuel + pigeonhole), worklist provider walk (invariant, potential-based termination, forward reachability under acyclicity) + differential correspondence with the real cff on generated flows and mutations",
